@@ -1,7 +1,8 @@
 """C01 - expressions group by precedence, associate left, unary tightest, operands in order."""
-import json, os, sys
+import json, os, re, sys
 import vcommon as V
 import syntaxcommon as S
+import c01_glue as G
 
 PID = "C01"
 KEY_UN = "un-nular-operand"
@@ -169,16 +170,22 @@ def main(replay=None):
 
     if replay:
         r = json.load(open(replay))["replay"]
-        cases.append({"kind": r.get("kind", "replay"), "text": V.unhx(r["text_hex"]), "expected": r.get("expected"),
-                      "un": r.get("un", False), "ss": None})
+        c = {"kind": r.get("kind", "replay"), "text": V.unhx(r["text_hex"]), "expected": r.get("expected"),
+             "un": r.get("un", False), "ss": None, "mode": r.get("mode", "A")}
+        if r.get("intended"):
+            c["intended"], c["spaced"], c["glued"] = r["intended"], V.unhx(r.get("spaced_hex", "")), (0, 0)
+        cases.append(c)
     else:
         cdir = os.path.join(V.VERIF, "corpus", PID)
         if os.path.isdir(cdir):
             for fn in sorted(os.listdir(cdir)):
                 if fn.endswith(".json"):
                     r = json.load(open(os.path.join(cdir, fn)))
-                    cases.append({"kind": "corpus:" + fn, "text": V.unhx(r["text_hex"]), "expected": r.get("expected"),
-                                  "un": r.get("un", False), "ss": None})
+                    c = {"kind": "corpus:" + fn, "text": V.unhx(r["text_hex"]), "expected": r.get("expected"),
+                         "un": r.get("un", False), "ss": None, "mode": r.get("mode", "A")}
+                    if r.get("intended"):
+                        c["intended"], c["spaced"], c["glued"] = r["intended"], V.unhx(r.get("spaced_hex", "")), (0, 0)
+                    cases.append(c)
         for kind, ss in boundary(gen):
             add_tree(kind, ss, 0.0, 0.0, plain=True)
             add_tree(kind, ss, 0.3, 0.5)
@@ -216,12 +223,41 @@ def main(replay=None):
                 add_raw("mutated", t)
         for t in garbage(rng, 3000 if thorough else 600):
             add_raw("garbage", t)
+        # minimal whitespace: every gap between two tokens closed wherever they are still read as the same two tokens (c01_glue.py)
+        cases += G.triples(P, rng, None if thorough else 6)
+        cases += G.layouts(P, rng, None if thorough else 4, 64 if thorough else 16)
+        cases += G.randoms(gen, rng, 3000 if thorough else 300)
+        cases += G.macros(P, rng)
 
-    # ---- run: A (listing) for all, T (tokens) for all
-    a_cases = [("A", c["text"]) for c in cases]
-    t_cases = [("T", c["text"]) for c in cases]
-    impl_a, model_a = S.run_both(ctx, a_cases)
-    impl_t, model_t = S.run_both(ctx, t_cases)
+    # ---- run: A (listing; M = through the preprocessor first) on the implementation, then T (tokens) and the model on the text the parser saw
+    rc, impl_a, err = V.run_lines_parallel([ctx.harness], ["%s\t%s" % (c.get("mode", "A"), S.hx(c["text"])) for c in cases], timeout=3000)
+    n_pp_refused = 0
+    for i, c in enumerate(cases):
+        c["ptext"] = c["text"]
+        if c.get("mode") == "M":
+            f = impl_a[i].split("\t")
+            if f[0] == "OK" and len(f) == 3:
+                c["pp"], impl_a[i] = V.unhx(f[2]), "OK\t" + f[1]
+            elif f[0] == "PARSEERROR" and len(f) == 2:
+                c["pp"], impl_a[i] = V.unhx(f[1]), "PARSEERROR"
+            if "pp" in c:
+                c["ptext"] = G.pp_body(c["pp"])
+            elif f[0] == "PPERROR":
+                n_pp_refused += 1       # the preprocessor's business (C13); nothing reached the parser
+                c["expected"], c["intended"], c["ptext"], impl_a[i] = None, None, b"", "OK\t"
+    lines_a = ["A\t" + S.hx(c["ptext"]) for c in cases]
+    lines_t = ["T\t" + S.hx(c["ptext"]) for c in cases]
+    rc, model_a, err = V.run_lines_parallel([ctx.driver, ctx.regfile], lines_a, timeout=3000)
+    rc, impl_t, err = V.run_lines_parallel([ctx.harness], lines_t, timeout=3000)
+    rc, model_t, err = V.run_lines_parallel([ctx.driver, ctx.regfile], lines_t, timeout=3000)
+    # a glued text that is not compiled as its reading: what the same tokens give with one blank in every gap (for the report)
+    def meets(i, c):
+        return impl_a[i].startswith("OK\t") and S.norm_fold(S.tidy(impl_a[i][3:])) == S.norm_fold(S.tidy(c["expected"]))
+    need_ref = [i for i, c in enumerate(cases) if c.get("intended") and c.get("spaced") and c["expected"] is not None and not meets(i, c)][:200]
+    if need_ref:
+        rc, out, err = V.run_lines_parallel([ctx.harness], ["A\t" + S.hx(cases[i]["spaced"]) for i in need_ref], timeout=3000)
+        for i, l in zip(need_ref, out):
+            cases[i]["reference"] = l
     # repaired-parser answers only where attribution needs them
     need_r = [i for i, c in enumerate(cases) if c["un"]]
     model_r = {}
@@ -231,13 +267,38 @@ def main(replay=None):
 
     kinds, distinct, samples, used = {}, set(), [], set()
     n_oracle = n_mirror = 0
+    glue = {"texts": 0, "gaps_closed_under_C01_lex_render": 0, "gaps_closed_under_C01_lex_render_glued": 0, "not_the_intended_tokens": 0,
+            "preprocessor_refused": n_pp_refused, "distinct_adjacent_token_pairs": 0}
+    glue_pairs = set()
     for i, c in enumerate(cases):
         k0 = c["kind"].split(":")[0]
-        kinds[k0] = kinds.get(k0, 0) + 1
+        kinds[c["kind"].split("/")[0] if k0 == "glue" else k0] = kinds.get(c["kind"].split("/")[0] if k0 == "glue" else k0, 0) + 1
         ia, ma, it, mt = impl_a[i], model_a[i], impl_t[i], model_t[i]
         ma_c = S.canon_model_listing(ma) if ma.startswith("OK\t") else ma
         rep = {"kind": c["kind"], "text_hex": S.hx(c["text"]), "text": c["text"].decode("latin-1"), "expected": c["expected"],
                "un": c["un"], "impl": ia, "model": ma_c, "impl_tokens": it, "model_tokens": mt}
+        if c.get("intended"):
+            # the lexer model decides whether the glued text still is the intended token list (theorems C01_lex_render / _glued say it is)
+            rep.update({"mode": c.get("mode", "A"), "intended": c["intended"], "spaced_hex": S.hx(c.get("spaced", b"")),
+                        "the_same_tokens_with_blanks": c.get("spaced", b"").decode("latin-1"), "impl_on_the_spelling_with_blanks": c.get("reference")})
+            if "pp" in c:
+                rep["text_the_parser_received"] = c["pp"].decode("latin-1")
+            if mt != c["intended"]:
+                glue["not_the_intended_tokens"] += 1
+                c["expected"] = rep["expected"] = None
+            else:
+                glue["texts"] += 1
+                glue["gaps_closed_under_C01_lex_render"] += c["glued"][0]
+                glue["gaps_closed_under_C01_lex_render_glued"] += c["glued"][1]
+                toks = re.findall(r"(\S+):(\S+) ", mt[3:])
+                txt = c["ptext"].decode("latin-1")
+                pos = 0
+                for j, (ty, h) in enumerate(toks[:-1]):
+                    w = V.unhx(h).decode("latin-1")
+                    at = txt.index(w, pos)
+                    if j and at == pos:
+                        glue_pairs.add((toks[j - 1][0] if toks[j - 1][0] != "op" else toks[j - 1][1], ty if ty != "op" else h))
+                    pos = at + len(w)
         if S.bad_outcome(ia) or S.bad_outcome(it):
             run.violation("front end did not return on this text: " + (ia if S.bad_outcome(ia) else it).replace("\t", " "), rep)
             continue
@@ -262,6 +323,10 @@ def main(replay=None):
                     run.known_finding(KEY_UN)      # the faithful model predicts it; with that one switch off the model meets the spec
                     continue
                 rep["model_repaired"] = mr
+                if c.get("intended") and c.get("reference") and S.norm_fold(S.tidy(c["reference"][3:])) == S.norm_fold(exp):
+                    run.violation("a text is not compiled as its documented reading once the optional blanks between its tokens are left out "
+                                  "(the same tokens separated by blanks are)", rep)
+                    continue
                 run.violation("listing is not the post-order of the documented reading", rep)
                 continue
             # the model must meet the oracle too (machinery check) - where it has an answer (it does not model comments)
@@ -296,10 +361,17 @@ def main(replay=None):
     run.cov["distinct_nontrivial"] = len(distinct)
     run.cov["rule"] = ("expression trees over literals, variables, arrays, code blocks, statements and every class of registered operator "
                        "(all 400 parent/child level shapes, random trees of depth <= 6, boundary cases, a sweep over operator names, chains of one operator name repeated, left spines of up to 700 operators), printed with "
-                       "minimal or redundant parentheses, random separators, whitespace and letter case; plus damaged renderings and character "
+                       "minimal or redundant parentheses, random separators, whitespace and letter case; the family glue (c01_glue.py): every gap between two tokens closed "
+                       "wherever theorems C01_lex_render / C01_lex_render_glued say the tokens stay the same (the extracted lexer re-checks every text) - L op R for every "
+                       "symbol operator and a sample (thorough: all) of the word operators x the character class at the end of L x the character class at the start of R, "
+                       "every subset of the gaps of L op u R (u a sign or !) and of small templates closed, random statement lists with all gaps closed, "
+                       "and the same adjacency produced by macro expansion (judged on the text the parser receives), oracle = post-order of the tree as for every other tree; "
+                       "plus damaged renderings and character "
                        "soup compared model-vs-implementation only. A case is non-trivial when the implementation's listing equals the "
                        "post-order of the documented reading; distinct by that listing")
     run.cov["input_distribution"] = kinds
+    glue["distinct_adjacent_token_pairs"] = len(glue_pairs)
+    run.cov["glue"] = glue
     run.cov["oracle_cases"] = n_oracle
     run.cov["mirror_only_cases"] = n_mirror
     run.cov["operator_names_used"] = len(used & allnames)
@@ -309,6 +381,6 @@ def main(replay=None):
     run.cov["samples"] = samples
     run.cov["trusted_base"] = ["Coq 8.16.1 kernel (vm_compute over the generated tables)", "ExtrOcamlBasic extraction + ocaml/syntax_driver.ml",
                                "harness/h_syntax.cpp + fork plumbing", "translators/registry.py, translators/grammar.py",
-                               "Python generator/printer/oracle in checks/syntaxcommon.py (number literals are canonicalised with struct/'%g')",
+                               "Python generator/printer/oracle in checks/syntaxcommon.py, checks/c01_glue.py (number literals are canonicalised with struct/'%g')",
                                "bison's LALR driver skeleton; Syntax/SyntaxDefs.v is hand-written and tied to the C++ by this differential run"]
     return run.finish()
